@@ -29,6 +29,9 @@ Verdict(r) ==
      \cup If(SetOf(r.mc) # SetOf(r.mp) /\ merged, "compiled-and-reference-mappings-differ-Lv-Ts-Og-share-a-bit")
      \cup If(SetOf(r.mc) # SetOf(r.mp) /\ ~merged /\ bigring, "compiled-and-reference-mappings-differ-ring-larger-than-65-packed-as-ring-free")
      \cup If(Len(r.mc) # Cardinality(SetOf(r.mc)), "compiled-duplicate-mapping")
+     \* the element bits of every packed atom, also of elements 117 / 118, which the layout folds onto the bit of 116 (claimed outside InRange too)
+     \cup If(\E a \in Nodes(r.t) : LET z == r.t.atoms[a].z IN
+               {b \in SetOf(r.ea[a][1]) : b <= 56} # ZBits1(z) \/ {b \in SetOf(r.ea[a][2]) : b >= 4} # ZBits2(z), "element-bits-differ-from-layout")
      \cup (IF ~InRange(r) THEN {} ELSE
            If(\E a \in Nodes(r.t) : LET e == EncA(at[a], r.mdla[a]) IN
                  SetOf(r.ea[a][1]) # e.w1 \/ SetOf(r.ea[a][2]) # e.w2 \/ SetOf(r.ea[a][3]) # e.w3 \/ SetOf(r.ea[a][4]) # e.w4, "atom-words-differ-from-layout")
